@@ -362,6 +362,16 @@ func attrInt(req mon.OpReq, name string, def int64) int64 {
 	return def
 }
 
+func maxAbs(t *ref.T) float64 {
+	m := 0.0
+	for i := range t.Bits {
+		if v := math.Abs(t.F(i)); v > m && !math.IsInf(v, 0) {
+			m = v
+		}
+	}
+	return m
+}
+
 func c09Structural(c *Ctx, req mon.OpReq, got *ref.T) {
 	x := req.Inputs[0]
 	switch req.Op {
@@ -391,6 +401,30 @@ func c09Structural(c *Ctx, req mon.OpReq, got *ref.T) {
 		axis, ok := ref.NormAxis(int(attrInt(req, "axis", -1)), x.Rank())
 		if !ok || !ref.ShapeEq(got.Shape, x.Shape) {
 			return
+		}
+		if req.Op == "Softmax" {
+			// "LogSoftmax equals its logarithm" - also for tiny probabilities, where an absolute
+			// tolerance says nothing: wherever Softmax is a normal number, its logarithm is what
+			// LogSoftmax returns for the same input and axis
+			twin := req
+			twin.Op = "LogSoftmax"
+			if ol, _ := mon.RunOpAPI(twin); ol.Kind == mon.Value && len(ol.Vals) == 1 && ol.Vals[0] != nil && len(ol.Vals[0].Bits) == len(got.Bits) {
+				c.Eval(1)
+				rel, tiny := 2e-5, 1.2e-38
+				if x.DT == ref.F64 {
+					rel, tiny = 1e-11, 2.3e-308
+				}
+				for i := range got.Bits {
+					sft, lg := got.F(i), ol.Vals[0].F(i)
+					if sft < tiny || lg != lg || math.IsInf(lg, 0) {
+						continue
+					}
+					if d := math.Abs(math.Log(sft) - lg); d > rel*(1+math.Abs(lg))+rel*math.Abs(maxAbs(x)) {
+						c.Violation("Softmax:not-the-exponential-of-LogSoftmax", "element %d: Softmax %v (logarithm %v), LogSoftmax %v | %s", i, sft, math.Log(sft), lg, trunc(req.Describe(), 300))
+						break
+					}
+				}
+			}
 		}
 		k := x.Shape[axis]
 		u := 0x1p-24
